@@ -85,6 +85,14 @@ def cases(ctx):
         muts.append(('payload19-z', b58c(prefix(ty, net) + bytes(3) + h[:16])))
         muts.append(('bad-checksum', __import__('base58check').b58encode(prefix(ty, net) + h + bytes(4)).decode()))
         muts.append(('truncate', s[:-1])); muts.append(('extend', s + rng.choice(ALPH)))
+        # non-canonical Base58: a leading '1' stands for a leading zero BYTE, so adding or dropping one changes the decoded length
+        # (26 / 24 bytes) although the number the digits denote, and hence a big-integer decoder's view of it, stays the same
+        muts.append(('extra-leading-1', '1' + s)); muts.append(('extra-leading-11', '11' + s))
+        if s.startswith('1'): muts.append(('dropped-leading-1', s[1:]))
+        else:
+            z = b58c(b'\x00' + (bytes(rng.randrange(0, 3)) + h)[:20])         # a mainnet-P2PKH-shaped string (version 0) with its '1's dropped
+            muts.append(('dropped-leading-1s', z.lstrip('1')))
+            muts.append(('dropped-one-leading-1', z[1:]))
         muts.append(('len%d' % rng.randrange(25, 37), ''.join(rng.choice(ALPH) for _ in range(rng.randrange(25, 37)))))
         for kind, m in muts:
             ctx.count('reject-' + kind)
